@@ -570,13 +570,20 @@ def sh_safe(ctx, include_make_recipe=False, rule_id='SH-SAFE'):
     Q.require(len(tests) == 1, 'inner_quote_info: expected one regex test '
               'deciding whether to quote')
     pat, te = tests[0]
-    Q.require(te.name == 'search', 'inner_quote_info: quoting test is not a '
-              'search for a bad character')
+    Q.require(te.name in ('search', 'fullmatch'), 'inner_quote_info: quoting '
+              'test is neither a search for a bad character nor a full '
+              'match of a safe word')
     cre = re.compile(pat)
-    # characters that trigger quoting wherever they occur in the word
-    bad = {c for c in rx.SIGMA if cre.search('ab' + c + 'cd') is not None and
-           cre.search(c + 'cd') is not None and
-           cre.search('ab' + c) is not None}
+    # characters that trigger quoting wherever they occur in the word:
+    # `BAD.search(s)` selects quoting, `SAFE.fullmatch(s)` selects no quoting
+    if te.name == 'search':
+        def needs(w):
+            return cre.search(w) is not None
+    else:
+        def needs(w):
+            return cre.fullmatch(w) is None
+    bad = {c for c in rx.SIGMA if needs('ab' + c + 'cd') and
+           needs(c + 'cd') and needs('ab' + c)}
     ctx.stat('sh_unquoted_chars', ''.join(sorted(
         c for c in rx.SIGMA if c not in bad)))
     # the test selects the quoting branch: the quoting return (flag True,
@@ -594,8 +601,18 @@ def sh_safe(ctx, include_make_recipe=False, rule_id='SH-SAFE'):
                     len(a.args) == 1 and const_eval(
                         repo, e.fn.module, a.args[0]) == "'":
                 reps.append((e, e.call.func.value))
-    ok = bool(reps) and all(has_call(e.control(), 'search')
-                            for e, _ in reps)
+    def selected(e):
+        # the quoting branch is the positive branch of a search for bad
+        # characters / the negative branch of a full match of safe ones
+        want = te.name == 'search'
+        for f_, n_ in e.path:
+            for t, pos in F.guards_pol(n_, f_):
+                if any(x is te.call for x in ast.walk(t)):
+                    neg = isinstance(t, ast.UnaryOp) and isinstance(
+                        t.op, ast.Not)
+                    return (pos != neg) == want
+        return has_call(e.control(), te.name)
+    ok = bool(reps) and all(selected(e) for e, _ in reps)
     ctx.ob(R, 'inner_quote_info|bad-char-test-selects-quoting', ok,
            te.call, 'the bad-character test does not select the quoting '
            'branch')
@@ -647,6 +664,10 @@ def sh_safe(ctx, include_make_recipe=False, rule_id='SH-SAFE'):
             any(op == 'NotEq' and (has_const(l, '') or has_const(rr, ''))
                 for op, l, rr in F.guard_compares(r, g, b))
             for r, g, b in falses)
+    if not ok and te.name == 'fullmatch' and needs('') and reps and all(
+            selected(e) for e, _ in reps):
+        # the empty word is not a safe word: it takes the quoting branch
+        ok = has_const(F.returns(f), True)
     ctx.ob(R, 'inner_quote_info|empty-string-quoted', ok, f.node,
            "the empty string is not reported as needing quotes ('')")
     ok = False
